@@ -2030,11 +2030,12 @@ MANIFEST = dict(
           "defect of the code as it is: same_branch_asIs_counterexample. The model is "
           "compared function by function with the implementation (lattice inputs exactly at Rat, random inputs at Float, "
           "body contacts) and an independent oracle (exact barycentric coordinates, plane residual, convexity, force, swap, "
-          "separating axes) runs on tetrahedron pairs and factory bodies."),
+          "separating axes) runs on tetrahedron pairs and factory bodies. " 
+          "Link theorems (regenerated from today's source by py2lean on every run, D3/Gen/Link15.lean) tie _halfplanes.cross2d, intersect_two_halfplanes and point_outside_of_halfplane to the model for every input. "),
     note=("trusted: Lean kernel + Mathlib, axioms propext/Classical.choice/Quot.sound; exact-real semantics (rounding not "
           "modelled); pinv/solve/argsort as parameters with contracts; correspondence harness (sampling); partial: convexity "
           "of the angular order, order independence of the vertex set. Known findings: F-C15-same-branch, "
           "F-C15-vertex-drop, F-C15-coincident-lines, F-C15-coincident-fields (F-C15-halfplane-buffer and F-make-halfplanes are repaired; their "
           "witnesses run as regression inputs)."),
-    technique="Lean 4 proof on hand-written model + correspondence (Rat-exact on lattice tetrahedra, Float on random ones)",
+    technique="Lean 4 proof on hand-written model + correspondence (Rat-exact on lattice tetrahedra, Float on random ones) + py2lean-regenerated kernels linked to the model by theorem",
     design="§7 C15")
